@@ -45,6 +45,9 @@ func c11Attempts(r *nnsRun, name string, signer neotest.SingleSigner, extra []ne
 		add("addRecord", adminOK, false, "sub-unregistered."+name, recTXT, fmt.Sprintf("new-sub-%d", salt))
 		add("setRecord", adminOK, false, name, recTXT, int64(0), fmt.Sprintf("replaced-%d", salt))
 		add("deleteRecords", adminOK, false, name, recTXT)
+		// a type of which the name holds no record: "removal of nothing" still touches the name (SOA serial) and needs the same right
+		add("deleteRecords", adminOK, false, name, recAAAA)
+		add("deleteRecords", adminOK, false, "sub-unregistered."+name, recA)
 		add("transfer", alive && ws.has(n.owner), true, stranger, name, nil)
 		if signer != nil {
 			// the signer proposes itself as admin (so the new admin's witness is present): only the owner may
@@ -81,7 +84,7 @@ func shortArgs(args []any) string {
 func TestC11Stateful(t *testing.T) {
 	theT = t
 	col := ev.New("C11", "stateful",
-		"rapid: ownership histories (register at levels 2 and 3, transfer, setAdmin, renew; all by authorised signers) over 6 users; after every step, for every registered name and every role {owner, admin, former owner, former admin, parent owner, parent admin, stranger, committee, nobody} the full matrix of mutating methods {addRecord (name and an unregistered sub-name), setRecord, deleteRecords, updateSOA, renew, transfer, setAdmin, register of a sub-name} is evaluated by test invocation against the authorisation model: forbidden => FAULT (or false without any storage change for transfer), permitted => HALT; registerTLD/setPrice/update need the committee majority n/2+1 (committees of 1, 3 and 4 keys; a single member, n/2 of n and the 2n/3+1 account are refused); level-2 register needs only the new owner's witness - also for the take-over of an expired name (stranger, former owner, another user, committee alone refused); setAdmin needs owner AND new admin; one forbidden attempt per step is also committed and must leave the NNS storage unchanged; non-trivial = the matrix was evaluated in a state with a former owner or former admin and a level-3 name whose parent has a different owner",
+		"rapid: ownership histories (register at levels 2 and 3, transfer, setAdmin, renew; all by authorised signers) over 6 users; after every step, for every registered name and every role {owner, admin, former owner, former admin, parent owner, parent admin, stranger, committee, nobody} the full matrix of mutating methods {addRecord (name and an unregistered sub-name), setRecord, deleteRecords (of a type with records, of a type without any, of an unregistered sub-name), updateSOA, renew, transfer, setAdmin, register of a sub-name} is evaluated by test invocation against the authorisation model: forbidden => FAULT (or false without any storage change for transfer), permitted => HALT; registerTLD/setPrice/update need the committee majority n/2+1 (committees of 1, 3 and 4 keys; a single member, n/2 of n and the 2n/3+1 account are refused); level-2 register needs only the new owner's witness - also for the take-over of an expired name (stranger, former owner, another user, committee alone refused); setAdmin needs owner AND new admin; one forbidden attempt per step is also committed and must leave the NNS storage unchanged; non-trivial = the matrix was evaluated in a state with a former owner or former admin and a level-3 name whose parent has a different owner",
 		"all names but one (lapsed.com, expired from the start) are unexpired (expiry is C10)", "update's positive case is decided in C16")
 	runRapid(t, col, func(rt *rapid.T, h *ev.History) {
 		n := rapid.SampledFrom([]int{1, 1, 3, 4}).Draw(rt, "n")
